@@ -122,7 +122,7 @@ def sweep_payloads(cmd, rng):
 
 def plan(tier, seed):
     items = []
-    nh = 260 if tier == "quick" else 6000
+    nh = 400 if tier == "quick" else 60000
     per = 20
     for i in range(nh // per):
         variant = "asan2" if i % 3 == 2 else "asan"
@@ -183,7 +183,7 @@ def work(item, ctx):
             res.evals += 1
             res.counters["sweep_cases"] += 6
             res.states.add(("sweep", st, cmd))
-            run_history(res, exe, cfg, lines, ("sweep", st, cmd))
+            run_history(res, exe, cfg, lines, ("sweep", st, cmd), count=False)
             res.nt("sweep", st, cmd)
         if c0 == 0 and st == "blkdn":
             res.sample({"sweep_state": st, "prefix": pre, "first_payloads": [p.hex() for p in sweep_payloads(0, rng)[:3]]})
